@@ -87,6 +87,8 @@ function plan (seed, run, tier) {
     else if (k === 4) { const lf = rng.below(lookups.length); ops.push({ op: 'Lookup', lf, line: rng.range(1, 14), col: rng.range(1, 25) }) } else if (k === 5) { const lf = rng.below(lookups.length); ops.push({ op: 'FsMutate', lf, to: rng.below(lookups[lf].variants.length) }) } else if (k === 6) ops.push({ op: 'Burst', n: rng.pick([5, 50, 1001, 1100]) })
     else if (k === 7) ops.push({ op: 'FsFault', faults: [rng.pick([{ op: 'existsSync', kind: 'false' }, { op: 'existsSync', kind: 'true' }, { op: 'existsSync', kind: 'throw' }, { op: 'readFileSync', kind: 'ENOENT' }, { op: 'readFileSync', kind: 'EACCES' }, { op: 'readFileSync', kind: 'EISDIR' }, { op: 'readFileSync', kind: 'truncate' }, { op: 'readFileSync', kind: 'garbage' }])] })
     else ops.push({ op: 'NonCacheRewrite', f, v: rng.below(files[f].versions.length) })
+    // rarely: more than a thousand other files are rewritten through the caching rewriter
+    if (run % 40 === 7 && i === (nOps >> 1)) ops.push({ op: 'RewriteBurst', n: 1001 })
   }
   return { cfgs, files, lookups, ops, tag: allowMsgAt ? 'msg-at-allowed' : '' }
 }
@@ -101,9 +103,14 @@ function fsFor (plan, file, code) {
   return null
 }
 
+const BURST_CODE = 'function burst (a, b) { return a + b }\n'
 function jobs (plan) {
   const out = []
   for (const op of plan.ops) {
+    if (op.op === 'RewriteBurst') {
+      for (let i = 0; i < op.n; i++) out.push({ cfg: plan.cfgs[0], prng_seed: 1, file: `/sim/burst/rw${i}.js`, code: BURST_CODE })
+      continue
+    }
     if (op.op === 'Rewrite' || op.op === 'NonCacheRewrite') {
       const f = plan.files[op.f]; if (!f) continue
       const v = f.versions[op.v]; if (!v) continue
@@ -187,7 +194,10 @@ function execute (plan, table) {
   function expectedFor (fileObj, ver, siteLine, rwCfg) {
     // the original (path, line) a position on `siteLine` of version `ver` must be reported as
     if (rwCfg.chainSourceMap && ver.omap) {
-      return { path: path.join(path.dirname(fileObj.path), ver.omap.source), line: (siteLine - 1) * ver.omap.mult + ver.omap.off + 1, chained: true }
+      const L = siteLine - 1
+      const om = ver.omap
+      if (om.split && L >= om.split) return { path: path.join(path.dirname(fileObj.path), om.source2), line: (L - om.split) * om.mult + ((om.split - 1) * om.mult + om.off) + 1, chained: true, second: true }
+      return { path: path.join(path.dirname(fileObj.path), om.source), line: L * om.mult + om.off + 1, chained: true }
     }
     return { path: fileObj.path, line: siteLine, chained: false }
   }
@@ -238,6 +248,7 @@ function execute (plan, table) {
             exp = expectedFor(fo, ver, siteLine, plan.cfgs[lx.rw]); why = 'latest rewrite is modified and is the running code'
             st('probe:frame-in-rewritten-file')
             if (exp.chained) st('probe:frame-through-chained-map')
+            if (exp.second) st('probe:frame-in-second-source-of-bundle-map')
           } else if (ld.id === lx.id && lx.status !== 'modified') {
             exp = { path: r.file, line: r.line }; why = `latest rewrite is ${lx.status}: the running code is the original text`
             if (everModified[fo.path]) { key = 'stale-map:after-notmodified'; st('probe:notmodified-after-modified') }
@@ -385,7 +396,7 @@ function execute (plan, table) {
           const cf = plan.files[op.cbf]; const cld = cf && loaded[cf.path]
           if (cld) {
             const cver = cf.versions[cld.v]
-            const cs = cver.sites.filter(s => !['callback', 'throw', 'method', 'helper', 'double'].includes(s.kind))
+            const cs = cver.sites.filter(s => !['callback', 'throw', 'method', 'helper', 'double', 'evalfn'].includes(s.kind))
             if (cs.length) { const c = cs[op.cbsite % cs.length]; cb = cld.exports[c.fn]; cbKind = c.kind; if (cf.path !== f.path) st('probe:cross-file-stack') }
           }
           if (typeof cb !== 'function') cb = function plainCallback () { return new Error('cb') }
@@ -394,6 +405,7 @@ function execute (plan, table) {
         // via 'keep': whatever handler is installed stays (the same wrapper function keeps formatting)
         let err
         try { err = fn('arg', cb) } catch (e) { err = e }
+        if (site.kind === 'evalfn' && typeof err === 'function') { try { err = err() } catch (e) { err = e }; st('probe:eval-made-function-called-from-outside') }
         const errs = Array.isArray(err) ? [{ e: err[0], line: site.line }, { e: err[1], line: site.line2 }] : [{ e: err, line: null }]
         for (const item of errs) {
           lastRaw = null; handlerThrew = null
@@ -452,6 +464,14 @@ function execute (plan, table) {
         for (const f of op.faults) simfs.schedule(f)
         hist.push(['FsFault', 0, op.faults.map(f => f.kind).join()])
         log.push(`#${seq} FsFault ${JSON.stringify(op.faults)}`)
+      } else if (op.op === 'RewriteBurst') {
+        for (let i = 0; i < op.n; i++) {
+          try { rewriters[0].rewrite(BURST_CODE, `/sim/burst/rw${i}.js`) } catch (e) { rep.notes.push('burst rewrite failed: ' + String(e && e.message).slice(0, 60)) }
+        }
+        st('probe:more-than-1000-files-rewritten')
+        st('fault:rewrite-burst')
+        hist.push(['RewriteBurst', 0, String(op.n)])
+        log.push(`#${seq} RewriteBurst n=${op.n}`)
       } else if (op.op === 'Burst') {
         for (let i = 0; i < op.n; i++) {
           try { pkg.getOriginalPathAndLineFromSourceMap(`/sim/burst/${seq}/${i}.js`, 1, 1) } catch (e) { viol('N1', 'N1:lookup-threw', `burst lookup threw: ${e && e.message}`) }
@@ -526,5 +546,5 @@ module.exports = {
     'frames of code that is older than the latest rewrite of its file carry no positional expectation (the package keys by file name)',
     'batching the rewriter is sound here because call-to-call state of the rewriter is C16\'s subject'
   ],
-  expectedProbes: ['probe:frame-in-unmapped-region-of-chained-map', 'probe:frame-in-rewritten-file', 'probe:frame-through-chained-map', 'probe:file-rewritten-again', 'probe:throw-from-stale-code', 'probe:notmodified-after-modified', 'probe:rewrite-by-second-rewriter-instance', 'probe:eval-frame', 'probe:frame-in-never-rewritten-file', 'probe:lru-eviction-burst', 'probe:cross-file-stack', 'probe:string-path', 'probe:structured-path', 'probe:lookup-translated', 'probe:two-stacks-from-one-expression']
+  expectedProbes: ['probe:frame-in-unmapped-region-of-chained-map', 'probe:frame-in-rewritten-file', 'probe:frame-through-chained-map', 'probe:file-rewritten-again', 'probe:throw-from-stale-code', 'probe:notmodified-after-modified', 'probe:rewrite-by-second-rewriter-instance', 'probe:eval-frame', 'probe:frame-in-never-rewritten-file', 'probe:lru-eviction-burst', 'probe:cross-file-stack', 'probe:string-path', 'probe:structured-path', 'probe:lookup-translated', 'probe:two-stacks-from-one-expression', 'probe:frame-in-second-source-of-bundle-map', 'probe:eval-made-function-called-from-outside', 'probe:more-than-1000-files-rewritten']
 }
